@@ -175,6 +175,15 @@ theorem xopen_eq_some_iff (k n ad c p : Bytes) :
     chacha2.xopen k n ad c = some p ↔ c = chacha2.xseal k n ad p :=
   openK_eq_some_iff ..
 
+/-- Switch-agnostic form: whichever implementation `AEAD.chacha` names, once it is (definitionally,
+    after the switch in `Aead.lean`) `chacha2`, it satisfies the laws. -/
+theorem chacha_laws_of_eq (h : AEAD.chacha = chacha2) : AEAD.chacha.Laws := h ▸ chacha2_laws
+
+/-- **the real cipher of the driver (ChaCha20-Poly1305 / XChaCha20-Poly1305, `Netcode/ChaCha2.lean`, validated
+    against the RFC vectors and differentially against the RustCrypto crate on every run) satisfies the functional
+    laws every netcode theorem assumes** -/
+theorem _root_.RenetVerif.Netcode.AEAD.chacha_laws : AEAD.chacha.Laws := chacha2_laws
+
 #print axioms chacha2_laws
 #print axioms open_eq_some_iff
 #print axioms xopen_eq_some_iff
